@@ -93,3 +93,77 @@ func VerifH04RoundTrip() {
 	}
 	verifAssert(b2.Count() == cnt, "roundtrip: count")
 }
+
+// verifMkOne builds a one-container bitmap (slice- or tree-backed) at key;
+// typ 3 is a full container (a single run [0,65535]).
+func verifMkOne(tag string, kind int, key uint64, typ int) (*Bitmap, *verifSet) {
+	var b *Bitmap
+	if kind == 0 {
+		b = NewBitmap()
+	} else {
+		b = NewBTreeBitmap()
+	}
+	var c *Container
+	var s *verifSet
+	if typ == 3 {
+		s = &verifSet{kind: 1, runs: []interval16{{start: 0, last: 65535}}}
+		c = NewContainerRun([]interval16{{start: 0, last: 65535}})
+	} else {
+		c, s = verifMkContainer(tag, typ, verifBound("array", 2), verifBound("runs", 2), verifBound("words", 1), 0)
+	}
+	if c.N() > 0 {
+		b.Containers.Put(key, c)
+	}
+	return b, s
+}
+
+// H04c: ImportRoaringBits(data) == union with / difference from the decoded
+// set, and reports the number of bits changed.
+func VerifH04Import() {
+	tkind := 1 - verifChoice("target.kind", verifBound("tkinds", 2)) // tree-backed first
+	ttyp := verifChoice("target.typ", verifBound("ttyps", 3))
+	styp := verifChoice("source.typ", verifBound("styps", 3)+verifBound("full", 1))
+	if styp == verifBound("styps", 3) {
+		styp = 3 // the extra choice is the full container
+	}
+	sameKey := verifChoice("samekey", 2) == 0
+	tkey, skey := uint64(1), uint64(1)
+	if !sameKey {
+		skey = 2
+	}
+	verifNearBase = -1
+	if verifBound("near", 1) != 0 {
+		verifNearBase = 0
+	}
+	t, ts := verifMkOne("t", tkind, tkey, ttyp)
+	src, ss := verifMkOne("s", 0, skey, styp)
+	verifNearBase = -1
+	verifAssume(ss.count() > 0)
+	var buf bytes.Buffer
+	_, err := src.WriteTo(&buf)
+	verifAssert(err == nil, "WriteTo: no error")
+	data := buf.Bytes()
+	verifReadOnly(data)
+	clear := verifChoice("clear", 2) == 1
+	inter := int32(0)
+	if sameKey {
+		inter = verifInterCount(ts, ss)
+	}
+	changed, _, err := t.ImportRoaringBits(data, clear, false, 0)
+	verifReach("import done")
+	verifAssert(err == nil, "ImportRoaringBits: accepts valid payload")
+	lo := verifU16("probe.low")
+	inT := ts.has(lo)
+	inS := ss.has(lo)
+	if clear {
+		verifAssert(changed == int(inter), "import(clear): changed = |S ∩ T|")
+		verifAssert(t.Contains(tkey<<16|uint64(lo)) == verifAnd(inT, !verifAnd(sameKey, inS)), "import(clear): target = T minus S")
+	} else {
+		verifAssert(changed == int(ss.count()-inter), "import(set): changed = |S minus T|")
+		verifAssert(t.Contains(tkey<<16|uint64(lo)) == verifOr(inT, verifAnd(sameKey, inS)), "import(set): target key = T union S")
+		if !sameKey {
+			verifAssert(t.Contains(skey<<16|uint64(lo)) == inS, "import(set): new container = S")
+		}
+	}
+	verifAssert(t.Count() == uint64(verifIteInt(clear, int(ts.count()-inter), int(ts.count()+ss.count()-inter))), "import: Count")
+}
